@@ -356,16 +356,25 @@ def check_cfg(ctx, fx, cfg):
     ctx.floor("R01.3", "submit closures (%s)" % cfg, n_sub, 4)
     # R01.4 payloads go to the submit closure of the addressed actor only
     pctors = loops.payload_ctors(fx)
+    ppairs = loops.payload_pair_ctors(fx)
     own_default = {(g_["def"], st_.get("l")) for g_, _bi, st_ in loops.closed_as_stop_sites(fx)}
     n_sites = 0
     for f in fx.d["fns"]:
         b = ctx.body(fx, f)
         sites = []
-        if f["def"] in pctors:
+        if f["def"] in pctors or f["def"] in ppairs:
             continue  # a constructor hands its payload back; the sites that call it are judged
         for bi, t in b.normal_calls():
             if (t.get("resolved") or t.get("callee") or "") in pctors:
                 sites.append(("task", t["dest"][0], t["l"]))
+            elif (t.get("resolved") or t.get("callee") or "") in ppairs:
+                # the payload is one field of the pair the constructor returns: the local it is moved into
+                fld = ppairs[(t.get("resolved") or t.get("callee"))]
+                parts = [l_ for l_, defs_ in b.assigns.items() for (_x, _y, st_) in defs_ if st_["r"]["k"] == "use" and st_["r"]["o"].get("k") in ("move", "copy") and st_["r"]["o"]["p"] == [t["dest"][0], fld]]
+                if len(parts) == 1:
+                    sites.append(("task", parts[0], t["l"]))
+                else:
+                    sites.append(("task", t["dest"][0], t["l"]))
         for bi, si, st in agg_sites(b, adt=loops.PAYLOAD):
             if (f["def"], st.get("l")) in own_default:
                 continue  # the event loop's own reading of a closed mailbox (`dequeued.unwrap_or(Payload::Stop)`)
